@@ -3,13 +3,13 @@ from verif.core import Infra
 META = dict(
     technique="TLA+ model of a limited reader (fixed / chunked / head / probe kinds; actions RejectDeclared, Admit, RejectPiece, Probe, Finish) model-checked by TLC for every limit 1..MaxL, every total 0..2L+1 and EVERY split into pieces (invariants buffered <= L (+1 probe), returned <= L, outcome = Expected(L,total); liveness: every input is decided); the vectors are scaled to real limits {1, 7, 100, 4096, 8191, 8192, 8193, 1 MiB} with the boundary totals L and L+1 kept exact and replayed into Server (MaxRequestBodySize, ReadBufferSize; plain, multipart pre-parsed and multipart raw bodies), Request/Response.ReadLimitBody, HostClient (MaxResponseBodySize), MultipartFormWithLimit and the Body*WithLimit helpers (B3); allocation is measured for declared-huge inputs and decompression bombs; BodyLimitConn.tla models the serve loop with a per-request limit (Server.HeaderReceived) and its histories of <= 3 requests per connection are replayed against a real Server",
     design_ref="DESIGN.md §4 C07",
-    text="For every vector the real reader must return exactly the bytes when total <= L, and otherwise fail the required way (server: error status, no dispatch, connection closed; ReadLimitBody/HostClient/helpers: ErrBodyTooLarge; oversized head: 431 + close) and never return more than L bytes; bombs (Content-Length 1 TiB, chunk size 2^59, 32/256 MiB of zeros compressed with gzip/deflate/brotli/zstd) must fail with ErrBodyTooLarge while allocating no more than 16 L + 24 MiB. Connection histories: every request of a keep-alive connection must be bound by Eff(S, conf) of its own HeaderReceived result (all config sequences over {none, level 1..NL}, server level 1..NL, NL = 2 quick / 3 thorough, last body at every level and level+1 byte, fixed and chunked).",
+    text="For every vector the real reader must return exactly the bytes when total <= L, and otherwise fail the required way (server: error status, no dispatch, connection closed; ReadLimitBody/HostClient/helpers: ErrBodyTooLarge; oversized head: 431 + close) and never return more than L bytes; bombs (Content-Length 1 TiB, chunk size 2^59, 32/256 MiB of zeros compressed with gzip/deflate/brotli/zstd) must fail with ErrBodyTooLarge while allocating no more than 16 L + 24 MiB. Connection histories: every request of a keep-alive connection must be bound by Eff(S, conf) of its own HeaderReceived result (all config sequences over {none, level 1..NL}, server level 1..NL, NL = 2 quick / 3 thorough, last body at every level and level+1 byte, fixed and chunked; a server without a configured limit with bodies of 4 MiB and 4 MiB + 1; Expect: 100-continue with a client that waits for the 100 and one that does not).",
     note="Trusted: TLC, Go toolchain, runtime.MemStats.TotalAlloc as allocation measure (generous slack). 'Buffered' is observed as returned/retained bytes and allocation, not as the instantaneous size of internal I/O buffers (bufio, decompressor windows). Real limits are the listed sample; pieces are scaled proportionally.",
 )
 
 
 def run(ctx):
-    maxl = ctx.pick(3, 5)
+    maxl = ctx.pick(2, 5)
     path, _ = ctx.tlc_gen("wire", "BodyLimitGen", consts={"MAXL": maxl}, workers=4, timeout=1800, deadlock=True)
     if not path:
         raise Infra("BodyLimitGen wrote no vectors")
@@ -19,7 +19,8 @@ def run(ctx):
     hpath, _ = ctx.tlc_gen("wire", "BodyLimitConnGen", consts={"NL": ctx.pick(2, 3)}, workers=4, timeout=1800, deadlock=True)
     if not hpath:
         raise Infra("BodyLimitConnGen wrote no vectors")
-    recs = ctx.go_test(".", ["c07_"], "^TestVerifC07ConnHistories$", infile=hpath, timeout=1700)
+    recs = ctx.go_test(".", ["c07_"], "^TestVerifC07ConnHistories$", infile=hpath, timeout=1700,
+                       env={"VERIF_C07_NL": ctx.pick(2, 3)})
     ctx.absorb(recs)
     ctx.exhaustive = True
     ctx.rule = ("one evaluation = one (vector, real limit, target reader) run; distinct_nontrivial = vectors with total >= limit plus bomb cases; "
